@@ -468,7 +468,10 @@ class ExprMixin:
                     tv = True
             if tv is not None and isinstance(op, ast.IsNot):
                 tv = not tv
-            return Bool(tv, getattr(l, "prov", frozenset()) | getattr(r, "prov", frozenset()))
+            prov = getattr(l, "prov", frozenset()) | getattr(r, "prov", frozenset())
+            if not any(isinstance(x, (NoneV, Bool, Opaque)) for x in (l, r)):
+                prov = prov | {"IDENTITY"}  # object identity of two non-singleton objects
+            return Bool(tv, prov)
         if isinstance(op, (ast.In, ast.NotIn)):
             return self.bi.contains(state, l, r, isinstance(op, ast.NotIn), node)
         ln, rn = self.as_num(l), self.as_num(r)
